@@ -24,6 +24,8 @@ def memcpy_hook(exe, st, node, args):
     exe.assumed.add('libc memcpy/memmove: typed element copy of n*sizeof(T) bytes; regions do not overlap for memcpy')
     exe._check_deref(dst, st, node)
     exe._check_deref(src, st, node)
+    if isinstance(exe.leaf_type(dst.obj, dst.path), TStruct) or isinstance(dst.ct, TStruct):
+        return _memcpy_structs(exe, st, node, dst, src, nbytes)
     d, dt = _elem_ptr(exe, dst)
     s, s_t = _elem_ptr(exe, src)
     if isinstance(dt, TStruct) or isinstance(s_t, TStruct):
@@ -40,6 +42,29 @@ def memcpy_hook(exe, st, node, args):
         exe.emit('%s/memcpy_whole_elements@%s' % (exe.fn_stack[-1], exe._loc(node)), nbytes % sz == 0, st, kind='arith')
     n = simp(n)
     copy_elems(exe, st, d, s, n, node)
+    return dst
+
+
+def _memcpy_structs(exe, st, node, dst, src, nbytes):
+    """memcpy between arrays of the same struct type: field-wise typed element copy."""
+    from .cexpr import _paths_of
+    sct = dst.ct if isinstance(dst.ct, TStruct) else exe.leaf_type(dst.obj, dst.path)
+    s_ct = src.ct if isinstance(src.ct, TStruct) else exe.leaf_type(src.obj, src.path)
+    if not isinstance(s_ct, TStruct) or s_ct.cstr() != sct.cstr():
+        raise FrontEndError('memcpy between different struct types')
+    sz = exe.tu.sizeof(sct)
+    sem = exe.sem
+    n = simp(nbytes / sz) if sem.int_mode != 'bv' else simp(z3.UDiv(nbytes, z3.BitVecVal(sz, 64)))
+    exe.emit('%s/memcpy_whole_elements@%s' % (exe.fn_stack[-1], exe._loc(node)),
+             (nbytes % sz == 0) if sem.int_mode != 'bv' else (z3.URem(nbytes, z3.BitVecVal(sz, 64)) == 0), st, kind='arith')
+    for fpath in _paths_of(exe, dst.obj, dst.path):
+        rel = fpath[len(dst.path):]
+        lt = exe.leaf_type(dst.obj, fpath)
+        if len(exe.dims_of(dst.obj, fpath)) != len(dst.idx):
+            raise FrontEndError('memcpy of structs with embedded arrays')
+        d = dst.with_(path=fpath, ct=lt)
+        s = src.with_(path=src.path + rel, ct=lt)
+        copy_elems(exe, st, d, s, n, node)
     return dst
 
 
